@@ -852,6 +852,63 @@ func enumerate(c *hx.Ctx, k int) {
 	rec(0, nil)
 }
 
+// small-scope enumeration of rule lists: every ordered list of <= k rules of a fixed universe in one default
+// virtual host x a fixed request set (shadowing between rules of different kinds)
+var ruleUniverse = []rule{
+	{prefix: "/a"},
+	{prefix: "/a", hdrs: []hdrM{{"method", "GET", false}}},
+	{path: "/A"},
+	{regex: "^/a.*"},
+	{prefix: "/", hdrs: []hdrM{{"k1", "v1", false}}},
+	{prefix: "/", hdrs: []hdrM{{"k1", "^v[12]$", true}, {"method", "POST", false}}},
+	{},
+	{hdrs: []hdrM{{"service", "s1", false}}},
+	{vars: []varM{{name: types.VarMethod, value: "GET"}}},
+	{vars: []varM{{name: types.VarPath, regex: "^/b", model: "or"}, {name: types.VarMethod, value: "POST"}}},
+	{dsl: []string{`request.method == "GET"`}},
+}
+
+func enumerateRules(c *hx.Ctx, k int) {
+	var reqs []request
+	for _, path := range []string{"/a", "/b", unset} {
+		for _, method := range []string{"GET", "POST"} {
+			for _, k1 := range []string{"v1", unset} {
+				rq := request{vars: map[string]*string{types.VarHost: sp("x.org"), types.VarMethod: sp(method)}, hdrs: map[string]string{}}
+				if path != unset {
+					rq.vars[types.VarPath] = sp(path)
+				}
+				if k1 != unset {
+					rq.hdrs["k1"] = k1
+					rq.hdrs["service"] = "s1"
+				}
+				reqs = append(reqs, rq)
+			}
+		}
+	}
+	var rec func(cur []int)
+	rec = func(cur []int) {
+		if len(cur) > 0 {
+			vh := vhost{domains: []string{"*"}}
+			for _, i := range cur {
+				vh.rules = append(vh.rules, ruleUniverse[i])
+			}
+			vhs := []vhost{vh}
+			b := buildReal(vhs)
+			for _, rq := range reqs {
+				emit(c, "er", vhs, b, rq)
+			}
+			c.Count(fmt.Sprintf("enum.rules=%d", len(cur)))
+		}
+		if len(cur) == k {
+			return
+		}
+		for i := range ruleUniverse {
+			rec(append(append([]int{}, cur...), i))
+		}
+	}
+	rec(nil)
+}
+
 func Run(c *hx.Ctx) {
 	// the router logs every failed match at ERROR level: keep the run quiet
 	mlog.DefaultLogger.SetLogLevel(plog.FATAL)
@@ -860,8 +917,16 @@ func Run(c *hx.Ctx) {
 	// hx.Rng is counter based (state = (seed+i)*golden): the streams of seeds s and s+1 are the same stream shifted by
 	// one draw. Everything random here therefore hangs off one fork, whose state is a mixed 64-bit value.
 	top := c.Rng.Fork()
-	enumerate(c, c.N(2, 3))
-	nCfg := c.N(450, 6000)
+	// the enumerations do not depend on the seed: in the thorough tier (seeds s*1000+k) only the first seed runs them,
+	// one size larger
+	if !c.Thorough() {
+		enumerate(c, 2)
+		enumerateRules(c, 2)
+	} else if c.Seed%1000 == 0 {
+		enumerate(c, 4)
+		enumerateRules(c, 3)
+	}
+	nCfg := c.N(450, 12000)
 	for i := 0; i < nCfg; i++ {
 		r := top.Fork()
 		vhs := genConfig(c, r)
@@ -876,7 +941,7 @@ func Run(c *hx.Ctx) {
 	}
 	// the same kind of configurations reached through the routers manager after an earlier configuration, AddRoute and
 	// RemoveAllRoutes, looked up concurrently: the answers must be those of the configuration now in force
-	for i := 0; i < c.N(120, 1500); i++ {
+	for i := 0; i < c.N(120, 2500); i++ {
 		r := top.Fork()
 		vhs := genConfig(c, r)
 		b, now := buildViaManager(c, r, vhs)
